@@ -265,7 +265,7 @@ impl Send {
             // Note that we don't call `self.recv_err` because we want to enqueue
             // the reset frame before transitioning the stream inside
             // `reclaim_all_capacity`.
-            self.prioritize.clear_queue(buffer, stream);
+            self.prioritize.clear_queue(buffer, stream, counts);
         }
 
         let frame = frame::Reset::new(stream.id, reason);
@@ -491,7 +491,7 @@ impl Send {
         counts: &mut Counts,
     ) {
         // Clear all pending outbound frames
-        self.prioritize.clear_queue(buffer, stream);
+        self.prioritize.clear_queue(buffer, stream, counts);
         self.prioritize.reclaim_all_capacity(stream, counts);
     }
 
